@@ -210,6 +210,7 @@ CLAUSES = {
     4: "Run()'s error does not wrap the failed child's error",
     5: "state is not Error after a child failure",
     6: "a running child was not stopped after another child failed",
+    7: "Run() returned an error wrapping ErrRunnableFailed, but a state observed after its return is not Error",
     10: "Reload() did not return", 11: "Reload() on a Running composite did not consult the callback",
     12: "identity set unchanged, yet a child was stopped or started",
     13: "identity set unchanged, but the children did not receive exactly one ReloadWithConfig(new config) each, in order",
